@@ -1,0 +1,46 @@
+// SPDX-FileCopyrightText: 2026 The Pion community <https://pion.ly>
+// SPDX-License-Identifier: MIT
+
+//go:build verif
+
+// Contracts (comment-only) for property C14: RFC 4571 framing over ICE-TCP.
+// conn.stream / conn.rpos (inbound) and conn.wstream / conn.wpos (outbound) are
+// ghost byte streams of a net.Conn (see /verif/specs/lib/net.spec).
+
+package ice
+
+//@ spec func be16(s seq, p int) int = 256*s[p] + s[p+1]
+
+//@ func readStreamingPacket
+//@   props C14
+//@   safety index nil
+//@   requires conn != nil
+//@   modifies fam:H_net.Conn.rpos, fam:E_uint8
+//@   loop 1 invariant 0 <= bytesRead && bytesRead <= 2
+//@   loop 1 invariant conn.rpos == old(conn.rpos) + bytesRead
+//@   loop 1 invariant forall j int :: 0 <= j && j < bytesRead ==> elems(header)[j] == conn.stream[old(conn.rpos) + j]
+//@   loop 1 invariant elems(buf) == old(elems(buf)) || header.base == buf.base
+//@   loop 1 decreases 2 - bytesRead
+//@   loop 2 invariant 0 <= bytesRead && bytesRead <= length
+//@   loop 2 invariant conn.rpos == old(conn.rpos) + 2 + bytesRead
+//@   loop 2 invariant forall j int :: buf.off <= j && j < buf.off + bytesRead ==> elems(buf)[j] == conn.stream[old(conn.rpos) + 2 + (j - buf.off)]
+//@   loop 2 decreases length - bytesRead
+//@   ensures length: err == nil ==> result == be16(conn.stream, old(conn.rpos))
+//@   ensures fits: err == nil ==> result <= cap(buf)
+//@   ensures consumed: err == nil ==> conn.rpos == old(conn.rpos) + 2 + result
+//@   ensures payload: err == nil ==> forall j int :: buf.off <= j && j < buf.off + result ==> elems(buf)[j] == conn.stream[old(conn.rpos) + 2 + (j - buf.off)]
+//@   ensures no-overread: conn.rpos >= old(conn.rpos) + 2 ==> conn.rpos <= old(conn.rpos) + 2 + be16(conn.stream, old(conn.rpos))
+//@   ensures short-buffer: conn.rpos >= old(conn.rpos) + 2 && be16(conn.stream, old(conn.rpos)) > cap(buf) ==> err != nil && conn.rpos == old(conn.rpos) + 2
+//@   ensures error-zero: err != nil && !(conn.rpos == old(conn.rpos) + 2 && be16(conn.stream, old(conn.rpos)) > cap(buf)) ==> result == 0
+
+//@ func writeStreamingPacket
+//@   props C14
+//@   safety index nil
+//@   requires conn != nil
+//@   modifies fam:H_net.Conn.wpos, fam:H_net.Conn.wstream, fam:E_uint8
+//@   ensures too-long: len(buf) > 65535 ==> err != nil && conn.wpos == old(conn.wpos)
+//@   ensures count: err == nil ==> result == len(buf)
+//@   ensures advance: err == nil ==> conn.wpos == old(conn.wpos) + 2 + len(buf)
+//@   ensures header: err == nil ==> be16(conn.wstream, old(conn.wpos)) == len(buf)
+//@   ensures payload: err == nil ==> forall j int :: old(conn.wpos) + 2 <= j && j < old(conn.wpos) + 2 + len(buf) ==> conn.wstream[j] == elems(buf)[buf.off + (j - old(conn.wpos) - 2)]
+//@   ensures prefix: err == nil ==> forall j int :: j < old(conn.wpos) ==> conn.wstream[j] == old(conn.wstream[j])
